@@ -61,6 +61,26 @@ type SourceRunner struct {
 	startSourceChannelCh chan struct{} // signal to start the source channel
 
 	splitsWereAssigned chan []*workerpb.SourceSplit // channel for split assignment requests
+
+	deployed bool // HandleDeploy has run at least once
+}
+
+// deployment holds what belongs to one deployment of the runner. The event
+// loop and the output stream sender of a deployment only ever use these, never
+// the SourceRunner's fields of the same names: when the runner is deployed
+// again the fields are replaced, and whatever the goroutines of the previous
+// deployment still do (they may be blocked in a call that does not return)
+// stays within the previous deployment.
+type deployment struct {
+	outputStream       chan *workerpb.Event
+	keyEventChannel    *batching.ReorderFetcher[[]byte, []*handlerpb.KeyedEvent]
+	sourceReader       connectors.SourceReader
+	sourceChannel      *connectors.ReadSourceChannel
+	operators          *operatorCluster
+	checkpointBarrier  chan *workerpb.CheckpointBarrier
+	splitsWereAssigned chan []*workerpb.SourceSplit
+	watermarkTicker    *time.Ticker
+	watermarker        *wmark.Watermarker
 }
 
 type NewParams struct {
@@ -149,14 +169,7 @@ func (r *SourceRunner) Start(ctx context.Context) error {
 		cancel(result)
 	}()
 
-	r.keyEventChannel = batching.NewReorderFetcher(ctx, batching.NewReorderFetcherParams[[]byte, []*handlerpb.KeyedEvent]{
-		Batcher: batching.NewEventBatcher[[]byte](ctx, r.batchingParams),
-		FetchBatch: func(ctx context.Context, events [][]byte) ([][]*handlerpb.KeyedEvent, error) {
-			return r.userHandler.KeyEventBatch(ctx, events)
-		},
-		ErrChan:    r.errChan,
-		BufferSize: r.batchingParams.MaxSize,
-	})
+	r.keyEventChannel = r.newKeyEventChannel(ctx)
 
 	close(r.initDone) // Signal that initialization is done
 
@@ -182,6 +195,17 @@ func (r *SourceRunner) Start(ctx context.Context) error {
 	return nil
 }
 
+func (r *SourceRunner) newKeyEventChannel(ctx context.Context) *batching.ReorderFetcher[[]byte, []*handlerpb.KeyedEvent] {
+	return batching.NewReorderFetcher(ctx, batching.NewReorderFetcherParams[[]byte, []*handlerpb.KeyedEvent]{
+		Batcher: batching.NewEventBatcher[[]byte](ctx, r.batchingParams),
+		FetchBatch: func(ctx context.Context, events [][]byte) ([][]*handlerpb.KeyedEvent, error) {
+			return r.userHandler.KeyEventBatch(ctx, events)
+		},
+		ErrChan:    r.errChan,
+		BufferSize: r.batchingParams.MaxSize,
+	})
+}
+
 // Stop signals the SR to shutdown. This is safe to call multiple times.
 func (r *SourceRunner) Stop() error {
 	r.stop(nil)
@@ -202,12 +226,32 @@ func (r *SourceRunner) HandleDeploy(ctx context.Context, msg *workerpb.DeploySou
 		panic("exactly one source required")
 	}
 
+	// The job deploys a running source runner again when it re-assembles with
+	// this runner still alive. The new assembly starts over from a checkpoint:
+	// the previous deployment's event loop, source channel and senders are
+	// stopped, and what it read but did not deliver yet is dropped - it is read
+	// again from the checkpointed positions. Otherwise those events would reach
+	// the new assembly's operators a second time, and two loops and two senders
+	// would share (and reorder) one output stream.
+	if r.deployed {
+		r.stopLoop()
+		r.watermarkTicker.Stop()
+		r.outputStream = make(chan *workerpb.Event, cap(r.outputStream))
+		r.checkpointBarrier = make(chan *workerpb.CheckpointBarrier, 1)
+		r.splitsWereAssigned = make(chan []*workerpb.SourceSplit, 1)
+		r.watermarker = &wmark.Watermarker{}
+	}
+
 	r.watermarkTicker = time.NewTicker(time.Millisecond * 200)
 	r.watermarkTicker.Reset(time.Duration(verifhook.Tune("sourcerunner.watermarkTickMs", 200)) * time.Millisecond)
 
 	deploymentCtx, cancel := context.WithCancel(context.Background())
 	r.stopLoop = cancel
 	r.ctx = deploymentCtx // assign loopCtx to r.ctx for later use
+	if r.deployed {
+		r.keyEventChannel = r.newKeyEventChannel(deploymentCtx)
+	}
+	r.deployed = true
 
 	r.sourceReader = r.sourceReaderFactory(msg.Sources[0])
 	r.sourceChannel = connectors.NewReadSourceChannel(r.sourceReader)
@@ -223,16 +267,32 @@ func (r *SourceRunner) HandleDeploy(ctx context.Context, msg *workerpb.DeploySou
 		errChan:        r.errChan,
 	})
 
+	d := &deployment{
+		outputStream:       r.outputStream,
+		keyEventChannel:    r.keyEventChannel,
+		sourceReader:       r.sourceReader,
+		sourceChannel:      r.sourceChannel,
+		operators:          r.operators,
+		checkpointBarrier:  r.checkpointBarrier,
+		splitsWereAssigned: r.splitsWereAssigned,
+		watermarkTicker:    r.watermarkTicker,
+		watermarker:        r.watermarker,
+	}
 	go func() {
-		if err := r.processEvents(r.ctx); err != nil {
+		if err := r.processEvents(deploymentCtx, d); err != nil {
 			r.Logger.Error("processEvents stopped with error", "err", err)
 		}
 		cancel()
 	}()
 	go func() {
-		for opEvent := range r.outputStream {
-			if err := r.sendOperatorEvent(opEvent); err != nil {
-				r.errChan <- err
+		for {
+			select {
+			case <-deploymentCtx.Done():
+				return
+			case opEvent := <-d.outputStream:
+				if err := r.sendOperatorEvent(deploymentCtx, d, opEvent); err != nil && deploymentCtx.Err() == nil {
+					r.errChan <- err
+				}
 			}
 		}
 	}()
@@ -240,40 +300,44 @@ func (r *SourceRunner) HandleDeploy(ctx context.Context, msg *workerpb.DeploySou
 	return nil
 }
 
-func (r *SourceRunner) processEvents(ctx context.Context) error {
+func (r *SourceRunner) processEvents(ctx context.Context, d *deployment) error {
 	for {
+		if ctx.Err() != nil { // (select picks at random among the cases that are ready)
+			r.Logger.Info("stopping source runner loop", "cause", context.Cause(ctx))
+			return nil
+		}
 		select {
 		case <-ctx.Done():
 			r.Logger.Info("stopping source runner loop", "cause", context.Cause(ctx))
 			return nil
-		case splits := <-r.splitsWereAssigned:
-			if err := r.sourceReader.AssignSplits(splits); err != nil {
+		case splits := <-d.splitsWereAssigned:
+			if err := d.sourceReader.AssignSplits(splits); err != nil {
 				return err
 			}
 			if len(splits) > 0 {
-				if r.sourceChannel == nil {
+				if d.sourceChannel == nil {
 					return fmt.Errorf("sourceChannel is nil")
 				}
-				r.sourceChannel.Start(r.ctx)
+				d.sourceChannel.Start(ctx)
 			}
-		case <-r.watermarkTicker.C:
-			r.outputStream <- &workerpb.Event{Event: &workerpb.Event_Watermark{Watermark: &workerpb.Watermark{}}}
-		case barrier := <-r.checkpointBarrier:
-			if err := r.createCheckpoint(barrier.CheckpointId); err != nil {
+		case <-d.watermarkTicker.C:
+			r.emit(ctx, d, &workerpb.Event{Event: &workerpb.Event_Watermark{Watermark: &workerpb.Watermark{}}})
+		case barrier := <-d.checkpointBarrier:
+			if err := r.createCheckpoint(d, barrier.CheckpointId); err != nil {
 				return fmt.Errorf("creating checkpoint: %w", err)
 			}
-			r.outputStream <- &workerpb.Event{Event: &workerpb.Event_CheckpointBarrier{CheckpointBarrier: barrier}}
-		case readFunc, ok := <-r.sourceChannel.C:
+			r.emit(ctx, d, &workerpb.Event{Event: &workerpb.Event_CheckpointBarrier{CheckpointBarrier: barrier}})
+		case readFunc, ok := <-d.sourceChannel.C:
 			if !ok {
 				// Channel closed, Flush events, Send watermark, send source complete event
-				r.keyEventChannel.Flush(ctx)
-				r.outputStream <- &workerpb.Event{Event: &workerpb.Event_Watermark{
+				d.keyEventChannel.Flush(ctx)
+				r.emit(ctx, d, &workerpb.Event{Event: &workerpb.Event_Watermark{
 					Watermark: &workerpb.Watermark{},
-				}}
-				r.outputStream <- &workerpb.Event{Event: &workerpb.Event_SourceComplete{}}
+				}})
+				r.emit(ctx, d, &workerpb.Event{Event: &workerpb.Event_SourceComplete{}})
 
 				// Stop reading from sourceChannel
-				r.sourceChannel = nil
+				d.sourceChannel = nil
 				continue
 			}
 
@@ -290,7 +354,7 @@ func (r *SourceRunner) processEvents(ctx context.Context) error {
 
 			// Process the events
 			for _, e := range events {
-				r.sendKeyEvent(ctx, e)
+				r.sendKeyEvent(ctx, d, e)
 			}
 		}
 	}
@@ -300,15 +364,20 @@ func (r *SourceRunner) HandleStartCheckpoint(ctx context.Context, id uint64) {
 	r.checkpointBarrier <- &workerpb.CheckpointBarrier{CheckpointId: id}
 }
 
-func (r *SourceRunner) sendOperatorEvent(event *workerpb.Event) error {
+func (r *SourceRunner) sendOperatorEvent(ctx context.Context, d *deployment, event *workerpb.Event) error {
 	defer verifhook.At("sourcerunner.sent")
 	switch typedEvent := event.Event.(type) {
 	case *workerpb.Event_KeyedEvent:
 		// Get the async result for this placeholder event
-		asyncResult := <-r.keyEventChannel.Output
+		var asyncResult []*handlerpb.KeyedEvent
+		select {
+		case asyncResult = <-d.keyEventChannel.Output:
+		case <-ctx.Done():
+			return nil // the deployment ended
+		}
 		for _, event := range asyncResult {
-			r.watermarker.AdvanceTime(event.Timestamp.AsTime())
-			r.operators.routeEvent(event.Key, &workerpb.Event{
+			d.watermarker.AdvanceTime(event.Timestamp.AsTime())
+			d.operators.routeEvent(event.Key, &workerpb.Event{
 				Event: &workerpb.Event_KeyedEvent{
 					KeyedEvent: event,
 				},
@@ -316,31 +385,43 @@ func (r *SourceRunner) sendOperatorEvent(event *workerpb.Event) error {
 		}
 		return nil
 	case *workerpb.Event_Watermark:
-		typedEvent.Watermark.Timestamp = timestamppb.New(r.watermarker.CurrentWatermark())
-		return r.operators.broadcastEvent(typedEvent.Watermark)
+		typedEvent.Watermark.Timestamp = timestamppb.New(d.watermarker.CurrentWatermark())
+		return d.operators.broadcastEvent(typedEvent.Watermark)
 	case *workerpb.Event_CheckpointBarrier:
-		return r.operators.broadcastEvent(typedEvent.CheckpointBarrier)
+		return d.operators.broadcastEvent(typedEvent.CheckpointBarrier)
 	case *workerpb.Event_SourceComplete:
-		if err := r.operators.broadcastEvent(typedEvent.SourceComplete); err != nil {
+		if err := d.operators.broadcastEvent(typedEvent.SourceComplete); err != nil {
 			return err
 		}
-		r.operators.flush()
+		d.operators.flush()
 		return nil
 	default:
 		return fmt.Errorf("unknown operator event type: %T", typedEvent)
 	}
 }
 
-func (r *SourceRunner) sendKeyEvent(ctx context.Context, event []byte) {
+// emit puts an event on the output stream unless the deployment has ended (a
+// full stream is no longer drained then).
+func (r *SourceRunner) emit(ctx context.Context, d *deployment, event *workerpb.Event) {
+	select {
+	case d.outputStream <- event:
+	case <-ctx.Done():
+	}
+}
+
+func (r *SourceRunner) sendKeyEvent(ctx context.Context, d *deployment, event []byte) {
+	if ctx.Err() != nil {
+		return // the deployment ended while its loop was busy
+	}
 	// Put a placeholder on the output stream that will be joined with the async
 	// KeyEvent result.
-	r.outputStream <- &workerpb.Event{Event: &workerpb.Event_KeyedEvent{}}
-	r.keyEventChannel.Add(ctx, event)
+	r.emit(ctx, d, &workerpb.Event{Event: &workerpb.Event_KeyedEvent{}})
+	d.keyEventChannel.Add(ctx, event)
 }
 
 // createCheckpoint gets checkpoint data from the source reader and notifies the job.
-func (r *SourceRunner) createCheckpoint(id uint64) error {
-	data := r.sourceReader.Checkpoint()
+func (r *SourceRunner) createCheckpoint(d *deployment, id uint64) error {
+	data := d.sourceReader.Checkpoint()
 	return r.job.OnSourceRunnerCheckpointComplete(context.Background(), &jobpb.SourceRunnerCheckpointCompleteRequest{
 		CheckpointId:   id,
 		SplitStates:    data,
